@@ -14,16 +14,19 @@ REL = 1e-9
 
 
 def close(a: float, b: float, rel: float = REL) -> bool:
-    if a == b:
-        return True
+    if a == b or (math.isnan(a) and math.isnan(b)):
+        return True           # NaN is a value class of its own (a zero-valued argument in a denominator): NaN = NaN here
     if any(math.isnan(x) or math.isinf(x) for x in (a, b)):
         return False
     return abs(a - b) <= rel * max(abs(a), abs(b)) + 1e-300
 
 
 def _cclose(a, b) -> bool:
-    return close(a[0], b[0]) and close(a[1], b[1]) or \
-        abs(complex(*a) - complex(*b)) <= REL * max(abs(complex(*a)), abs(complex(*b)))
+    if close(a[0], b[0]) and close(a[1], b[1]):
+        return True
+    if any(math.isnan(x) or math.isinf(x) for x in (*a, *b)):
+        return False
+    return abs(complex(*a) - complex(*b)) <= REL * max(abs(complex(*a)), abs(complex(*b)))
 
 
 def values(a, b) -> str:
